@@ -9,6 +9,7 @@
 mod expr;
 mod extract;
 mod gen_codes;
+mod gen_enums;
 mod gen_fsm;
 mod gen_kernels;
 mod gen_panics;
@@ -58,6 +59,7 @@ fn main() {
     gen_sasl::generate(&mut src, &mut out);
     gen_txn::generate(&mut src, &mut out);
     gen_panics::generate(&mut src, &mut out);
+    gen_enums::generate(&mut src, &mut out);
     gen_schema::generate(&mut src, &mut out, args.get(3).map(Path::new));
 
     for w in &out.written {
